@@ -49,7 +49,7 @@ META = {
     },
     "C02": {
         "title": "Incoming byte streams are judged exactly as RFC 6455 prescribes",
-        "budgets": {"quick": (400000, 60), "thorough": (8000000, 1500)},
+        "budgets": {"quick": (600000, 60), "thorough": (8000000, 1500)},
         "variants": ALL_VARIANTS,
         "rule": ("batch prefix: the first two header octets walk all 65536 values (quick tier: a 4096-value stride sample) "
                  "in each of 16 receiver contexts (role x inside/outside fragmented message x compression x failByDrop), "
@@ -64,7 +64,7 @@ META = {
     },
     "C05": {
         "title": "WebSocket connections close exactly once, in order, and in bounded time",
-        "budgets": {"quick": (300000, 55), "thorough": (6000000, 900)},
+        "budgets": {"quick": (600000, 55), "thorough": (6000000, 900)},
         "variants": ALL_VARIANTS,
         "rule": ("one run = one seeded schedule over {flush, segmented delivery, FIN, RST, timer tick / partial clock "
                  "advance, local sendClose variants / send / ping / synced+chopped writes / app drop, peer close frames "
@@ -78,7 +78,7 @@ META = {
     },
     "C17": {
         "title": "Silent peers are dropped on time, responsive peers never",
-        "budgets": {"quick": (160000, 60), "thorough": (4000000, 1200)},
+        "budgets": {"quick": (320000, 60), "thorough": (4000000, 1200)},
         "variants": ALL_VARIANTS,
         "rule": ("one run = one virtual time line: drawn role, open/close/server-drop timeouts, auto-ping interval/"
                  "timeout/size/restart-on-traffic, fractional connection start (timer flooring); each peer reaction "
@@ -93,7 +93,7 @@ META = {
     },
     "C16": {
         "title": "Configured payload limits are enforced early and never by truncation",
-        "budgets": {"quick": (150000, 60), "thorough": (4000000, 1200)},
+        "budgets": {"quick": (220000, 60), "thorough": (4000000, 1200)},
         "variants": ALL_VARIANTS,
         "rule": ("three modes: recv (peer sends messages at limit-1/limit/limit+1/far beyond the drawn frame and message "
                  "limits, spread over 1..4 fragments, optionally compressed; every frame header is delivered before and "
@@ -107,7 +107,7 @@ META = {
     },
     "C07": {
         "title": "The opening handshake admits exactly the valid peers and never crashes",
-        "budgets": {"quick": (200000, 60), "thorough": (5000000, 1200)},
+        "budgets": {"quick": (600000, 60), "thorough": (5000000, 1200)},
         "variants": ALL_VARIANTS,
         "rule": ("three modes: pair (real client <-> real server over spec versions 10-18 x server versions, subprotocol "
                  "lists and selection policies, str/list headers, origin vs allow-list, user-agent/server strings, "
@@ -139,7 +139,7 @@ META = {
     },
     "C04": {
         "title": "Each WAMP request completes exactly once with its own reply",
-        "budgets": {"quick": (250000, 60), "thorough": (6000000, 1200)},
+        "budgets": {"quick": (400000, 60), "thorough": (6000000, 1200)},
         "variants": ALL_VARIANTS,
         "rule": ("one run = joined session, up to 14 API operations (call / publish / subscribe / register / unsubscribe "
                  "/ unregister / cancel with 8 payload shapes and all option classes) interleaved with router actions: "
@@ -154,7 +154,7 @@ META = {
     },
     "C11": {
         "title": "Events reach exactly the handlers subscribed at that moment",
-        "budgets": {"quick": (120000, 60), "thorough": (4000000, 1200)},
+        "budgets": {"quick": (160000, 60), "thorough": (4000000, 1200)},
         "variants": ALL_VARIANTS,
         "rule": ("one run = joined session, up to 17 operations: subscribe (3 topics, plain callables sync/async, "
                  "raising, self-/next-/previous-unsubscribing handlers, details_arg, decorated objects), unsubscribe, "
@@ -167,7 +167,7 @@ META = {
     },
     "C06": {
         "title": "WAMP sessions end cleanly on every path and leave nothing pending",
-        "budgets": {"quick": (300000, 60), "thorough": (6000000, 1200)},
+        "budgets": {"quick": (600000, 60), "thorough": (6000000, 1200)},
         "variants": ALL_VARIANTS,
         "rule": ("one run = one session class (ApplicationSession, the same with overrides that call up, new-API "
                  "Session), a router that follows the session state machine (0-2 CHALLENGEs, WELCOME or ABORT, GOODBYE "
@@ -182,7 +182,7 @@ META = {
     },
     "C13": {
         "title": "WAMP transports attach a session only after valid negotiation and fail closed",
-        "budgets": {"quick": (120000, 70), "thorough": (3000000, 1800)},
+        "budgets": {"quick": (500000, 70), "thorough": (3000000, 1800)},
         "variants": ALL_VARIANTS,
         "rule": ("batch prefix: RawSocket handshake octets 1-2 walk all 65536 values (quick tier: 4096-value sample, dense "
                  "around the magic octet) against a real server and a real client endpoint, reserved octets and short / "
@@ -199,7 +199,7 @@ META = {
     },
     "C10": {
         "title": "Every invocation gets exactly one terminal reply",
-        "budgets": {"quick": (80000, 70), "thorough": (2500000, 1800)},
+        "budgets": {"quick": (120000, 70), "thorough": (2500000, 1800)},
         "variants": ALL_VARIANTS,
         "rule": ("one run = a real ApplicationSession (callee) on the real client transport (WebSocket or RawSocket) "
                  "joined over a simulated link to the library's real server transport carrying a scripted dealer; small "
@@ -215,7 +215,7 @@ META = {
     },
     "C18": {
         "title": "Remote exceptions arrive with their URI, arguments and class",
-        "budgets": {"quick": (120000, 60), "thorough": (3000000, 1200)},
+        "budgets": {"quick": (240000, 60), "thorough": (3000000, 1200)},
         "variants": ALL_VARIANTS,
         "level_text": ("seeded search; the mapping itself is a pair of pure functions - what the simulation adds is the "
                        "two-party, concurrent setting (several calls in flight, different registries and serializers on "
@@ -232,7 +232,7 @@ META = {
     },
     "C20": {
         "title": "End-to-end encrypted payloads are recovered exactly or rejected",
-        "budgets": {"quick": (100000, 60), "thorough": (2500000, 1200)},
+        "budgets": {"quick": (180000, 60), "thorough": (2500000, 1200)},
         "variants": ALL_VARIANTS,
         "rule": ("batch prefix: every single-octet alteration (positions 0..119) of the ciphertext in each of the four "
                  "payload directions (event, invocation, result, error); then generated runs: two real sessions with "
@@ -248,7 +248,7 @@ META = {
     },
     "C14": {
         "title": "Components reconnect within their retry budget and finish exactly once",
-        "budgets": {"quick": (60000, 70), "thorough": (1500000, 1800)},
+        "budgets": {"quick": (120000, 70), "thorough": (1500000, 1800)},
         "variants": ALL_VARIANTS,
         "rule": ("one run = a real Component with 1-3 transports (websocket / rawsocket, real client stacks), drawn "
                  "max_retries in {0,1,2,3,-1}, initial delay, growth, jitter, maximum delay, is_fatal classifier, main in "
